@@ -116,6 +116,7 @@ PROGRAMS = {
     "sweep,ask|sweep": (("sweep", "ask"), ("sweep",)),
     "sweep|sweep|sweep": (("sweep",), ("sweep",), ("sweep",)),
     "sweep,sweep|sweep": (("sweep", "sweep"), ("sweep",)),
+    "sweep|owner-completes": (("sweep",), ("owner-completes",)),
 }
 
 
@@ -134,6 +135,28 @@ class Run:
                 world.crash_plan = {self.crash[0]: self.crash[1]}
             sqlx.activate(world)
             events: list = []
+            cas: list = []  # (worker, trial number, 'True'/'False'/exception class) of every FAIL compare-and-set
+
+            def spy(i: int) -> None:
+                stg = w.studies[i]._storage
+                real = stg.set_trial_state_values
+
+                def wrapped(trial_id: int, state: Any, values: Any = None) -> Any:
+                    if state != TrialState.FAIL:
+                        return real(trial_id, state, values)
+                    num = stg.get_trial_number_from_id(trial_id)
+                    try:
+                        r = real(trial_id, state, values)
+                    except Exception as e:
+                        cas.append((i, num, type(e).__name__))
+                        raise
+                    cas.append((i, num, str(bool(r))))
+                    return r
+
+                stg.set_trial_state_values = wrapped
+
+            for i in range(len(self.programs)):
+                spy(i)
 
             def mk(i: int):
                 def body() -> None:
@@ -143,6 +166,10 @@ class Run:
                             if step == "sweep":
                                 fail_stale_trials(w.studies[i])
                                 events.append((i, "sweep", "ok"))
+                            elif step == "owner-completes":
+                                # the (slow but alive) owner of the second stale trial finishes it
+                                w.studies[i].tell(w.stale2, 0.5)
+                                events.append((i, "owner-completes", "ok"))
                             else:
                                 t = w.studies[i].ask()
                                 v = t.suggest_float("x", 0, 1)
@@ -170,7 +197,7 @@ class Run:
             if errs:
                 raise InternalError(f"driver error {errs}")
             trials = w.final()
-            return {"events": events, "calls": list(w.calls), "trials": [(t.number,) + World.canon(t) for t in trials],
+            return {"events": events, "cas": cas, "calls": list(w.calls), "trials": [(t.number,) + World.canon(t) for t in trials],
                     "snapshot": w.snapshot, "protected": w.protected_numbers, "stale": [w.stale] + ([w.stale2] if self.pattern == "two-stale" else []),
                     "deadlock": sched.deadlock, "steps": sched.step, "n_stmt": dict(world.n_stmt), "sql": world.log[-60:]}
         finally:
@@ -184,12 +211,26 @@ class Run:
         sweeps_ok = [e for e in ex["events"] if e[1] == "sweep" and e[2] == "ok"]
         for e in ex["events"]:
             if isinstance(e[2], str) and e[2].startswith("raised"):
+                if e[1] == "owner-completes" and e[2].split()[1].rstrip(":") in ("ValueError", "UpdateFinishedTrialError"):
+                    continue  # the sweeper failed the trial first: the owner is told so (legitimate)
                 bad.append((f"{e[1]}-raised", e[2]))
         # protected trials untouched
         for n in ex["protected"]:
             if trials[n] != ex["snapshot"][n]:
                 bad.append(("protected-trial-touched", f"trial {n}: {ex['snapshot'][n][0]} -> {trials[n][0]}"))
+        # the callback belongs to the worker that moved the trial to FAIL, nobody else
+        for who, num in ex["calls"]:
+            if (who, num, "True") not in ex["cas"]:
+                bad.append(("callback-run-by-a-worker-that-did-not-fail-the-trial", f"worker {who} trial {num} cas={ex['cas']}"))
+        completed_by_owner = {e[0] for e in ex["events"] if e[1] == "owner-completes" and e[2] == "ok"}
         for sn in ex["stale"]:
+            if trials[sn][0] == "COMPLETE":
+                # a sweeper whose FAIL compare-and-set returned True and an owner whose tell also
+                # succeeded: the SQLite lost update (known finding); anything else is the precise
+                # clause above (callback by a worker that did not fail the trial)
+                if any(c[1] == sn for c in ex["calls"]) and any((c[0], sn, "True") in ex["cas"] for c in ex["calls"] if c[1] == sn):
+                    bad.append(("sqlite-lost-update:sweeper-FAILed-and-owner-COMPLETEd-the-same-trial", f"trial {sn}"))
+                continue
             if sweeps_ok and trials[sn][0] != "FAIL":
                 bad.append(("stale-trial-not-failed-after-a-completed-sweep", f"trial {sn} is {trials[sn][0]}"))
             n_cb = sum(1 for c in ex["calls"] if c[1] == sn)
@@ -248,7 +289,7 @@ def task_fn(task: tuple) -> dict:
                 key = f"procx-sql|{prog}|{'crash' if crash else 'no-crash'}|{clause}"
                 part.violation(key, {"engine": "procx/SQL", "pattern": pattern, "max_retry": max_retry, "programs": prog,
                                      "crash": crash, "schedule": ch.choices, "clause": clause, "detail": detail,
-                                     "events": ex["events"], "callback_calls": ex["calls"],
+                                     "events": ex["events"], "callback_calls": ex["calls"], "fail_cas": ex["cas"],
                                      "trials": [(t[0], t[1], t[5].get("retry_history")) for t in ex["trials"]]})
 
         st = explore(run.execute, bound, on_exec, max_execs=5000)
@@ -357,7 +398,9 @@ def run(tier: str, replay: str | None = None) -> int:
         for max_retry in (0, 1, None):
             progs = ["sweep|sweep", "sweep|ask"] if tier == "quick" else list(PROGRAMS)
             if pattern == "two-stale" and tier == "quick":
-                progs = ["sweep|sweep"]
+                progs = ["sweep|sweep", "sweep|owner-completes"]
+            if pattern != "two-stale":
+                progs = [p for p in progs if "owner-completes" not in p]
             for prog in progs:
                 crash = prog == "sweep|sweep" and (tier == "thorough" or (pattern == "plain" and max_retry == 1))
                 tasks.append(("conc", pattern, max_retry, prog, bound if len(PROGRAMS[prog]) == 2 else 1, crash))
